@@ -40,10 +40,9 @@ impl Utf8Accum {
                 self.expected -= 1;
                 if self.expected == 0 {
                     let len = self.partial as usize;
-                    // SAFETY: we checked previously that buffer contains valid utf8
-                    unsafe {
-                        return Some(core::str::from_utf8_unchecked(&self.buffer[..len]));
-                    }
+                    // lead and continuation bytes only have the right shape here,
+                    // overlong forms, surrogates and values above U+10FFFF must be dropped
+                    return core::str::from_utf8(&self.buffer[..len]).ok();
                 }
             }
         } else {
